@@ -4,6 +4,8 @@ import Hgxv.Proofs.C03Keep
 import Hgxv.Proofs.C03Full
 import Hgxv.Model.C03Kind
 import Hgxv.Proofs.C03Ext
+import Hgxv.Proofs.C03Raw
+import Hgxv.Proofs.C03Part
 /-! # C03 - TemporalHypergraph keeps (time, hyperedge) records; windows / snapshots / aggregate agree
 
 Model: `Hgxv/Model/C03.lean` (mirror of `hypergraphx/core/temporal_hypergraph.py` after the `fix:` commits of branch
@@ -621,3 +623,123 @@ example : edgeTable extStore = [((5, [1, 3]), 0), ((2, [1, 2]), 1), ((5, [1, 2])
 example : populate (exposeTables extStore) = extStore ∧ populate { nextId := some 4 } = { weighted := false, nextId := 4 } := by decide
 example : xrun [] extOps2 = frun [] (extOps2.flatMap XOp.expand) := (C03_ext_projection extOps2 []).1
 example : get? (xspecRun [] extOps2) 0 = some (abs extStore) := by decide
+
+/-! ## Second extension round: the raw setters; consecutive windows / snapshots / aggregate PARTITION the records -/
+
+/-- **`set_edge_list` / `set_adj_dict` on EVERY object (reachable or not).** The getter after the setter returns what was
+set, no other table moves (the dictionary of `expose_data_structures()` differs in that one entry only), handing a table
+back is the identity, and the two setters commute. -/
+theorem C03_raw_setters (s : Store) (t : List (Key × Nat)) (u : List (Node × List Nat)) :
+    edgeTable (setEdgeList s t) = t ∧ adjTable (setAdjDict s u) = u ∧
+    exposeTables (setEdgeList s t) = { exposeTables s with edgeList := some t } ∧
+    exposeTables (setAdjDict s u) = { exposeTables s with adj := some u } ∧
+    setEdgeList s (edgeTable s) = s ∧ setAdjDict s (adjTable s) = s ∧
+    setAdjDict (setEdgeList s t) u = setEdgeList (setAdjDict s u) t ∧
+    (setAdjDict s u).nmeta = s.nmeta ∧ records (setAdjDict s u) = records s :=
+  ⟨rfl, rfl, rfl, rfl, rfl, rfl, rfl, rfl, rfl⟩
+
+/-- **Histories with raw assignments that are echoes.** A history over `ROp` - every call of the extended machine
+(constructor calls, all public mutators, copies and routes, questions) mixed with `set_edge_list` / `set_adj_dict` on any
+slot - in which every raw assignment hands back (an equal copy of) the table the object holds at that moment ends in
+exactly the state of its public calls alone; so, the public calls being well-formed, every slot satisfies the invariant,
+the abstraction is the run of the maps, and every object is reachable: all earlier theorems apply to such histories. -/
+theorem C03_raw_echo_history (ops : List ROp) (he : echoes [] ops = true) (hwf : ∀ op ∈ pubOps ops, op.WF) :
+    rrun [] ops = xrun [] (pubOps ops) ∧ StateInv (baseState (rrun [] ops)) ∧
+    absState (baseState (rrun [] ops)) = xspecRun [] (pubOps ops) ∧
+    (∀ i o, get? (rrun [] ops) i = some o → Reachable o.base) := by
+  have e := rrun_echo ops [] he
+  have r := C03_ext_refines (pubOps ops) hwf
+  rw [e]
+  refine ⟨rfl, r.2.1, r.1, ?_⟩
+  intro i o hg
+  exact ((C03_ext_projection (pubOps ops) []).2.2 o ⟨pubOps ops, hwf, i, hg⟩).2
+
+/-- **Consecutive half-open windows partition the records.** For `a ≤ b ≤ c` (on every store): a record is in the window
+`(a, c)` iff it is in `(a, b)` or in `(b, c)`, never in both, and the listing of `(a, c)` is as long as the two together
+(with `C03_window_listing`: each record of `[a, c)` is listed once in exactly one of the two). -/
+theorem C03_windows_partition (s : Store) (a b c : Int) (hab : a ≤ b) (hbc : b ≤ c) :
+    (∀ k, k ∈ window s a c ↔ (k ∈ window s a b ∨ k ∈ window s b c)) ∧
+    (∀ k, ¬ (k ∈ window s a b ∧ k ∈ window s b c)) ∧
+    (window s a c).length = (window s a b).length + (window s b c).length := by
+  refine ⟨?_, ?_, window_length_split s a b c hab hbc⟩
+  · intro k; simp only [mem_window]; constructor
+    · rintro ⟨h1, h2, h3⟩
+      by_cases h : (k.1 : Int) < b
+      · exact .inl ⟨h1, h2, h⟩
+      · exact .inr ⟨h1, by omega, h3⟩
+    · rintro (⟨h1, h2, h3⟩ | ⟨h1, h2, h3⟩)
+      · exact ⟨h1, h2, by omega⟩
+      · exact ⟨h1, by omega, h3⟩
+  · intro k; simp only [mem_window]; rintro ⟨⟨_, _, h3⟩, ⟨_, h5, _⟩⟩; omega
+
+/-- **The per-time snapshots partition the records.** On a reachable object `subhypergraph()` (no window) succeeds, and
+`(t, e)` is a record IFF the snapshot of time `t` exists and has the hyperedge `e`: every record lies in exactly one
+snapshot (its time's), no snapshot has a hyperedge that is not a record of its time, and no snapshot is empty. -/
+theorem C03_snapshots_partition (s : Store) (hs : Reachable s) :
+    ∃ r, snapshots s .none = some r ∧
+      (∀ t e, (t, e) ∈ edgeKeys s ↔ ∃ h, get? r t = some h ∧ (get? h.edges e).isSome = true) ∧
+      (∀ t h, get? r t = some h → ∃ e, (t, e) ∈ edgeKeys s) := by
+  obtain ⟨r, hr, h1, h2⟩ := (C03_snapshot s hs .none).2 none none (.inl ⟨rfl, rfl, rfl⟩)
+  refine ⟨r, hr, ?_, ?_⟩
+  · intro t e
+    constructor
+    · intro hk
+      have hsome : (get? r t).isSome = true := (h1 t).mpr ⟨by simp [insideOpt], (t, e), hk, rfl⟩
+      obtain ⟨h, hh⟩ := Option.isSome_iff_exists.mp hsome
+      exact ⟨h, hh, ((h2 t h hh).2.1 e).mpr hk⟩
+    · rintro ⟨h, hh, he⟩
+      exact ((h2 t h hh).2.1 e).mp he
+  · intro t h hh
+    obtain ⟨_, k, hk, hkt⟩ := (h1 t).mp (by rw [hh]; rfl)
+    exact ⟨k.2, by rw [← hkt]; exact hk⟩
+
+/-- **The windows of `aggregate(w)` partition the time axis and the records.** `w` a positive integer, reachable object with
+a record: time `t` lies in window `j` (`j·w ≤ t < (j+1)·w`) IFF `j = ⌊t / w⌋`; every record `(t, e)` has its window
+`⌊t / w⌋` among the results and `e` is a hyperedge of that window's hypergraph - and (by `C03_aggregate`) of no other
+window's unless another record of the same node set falls there. -/
+theorem C03_aggregate_partition (s : Store) (hs : Reachable s) (i : Int) (hi : 0 < i) (M : Nat) (hM : maxTime s = some M) :
+    (∀ j t, (j * i.toNat ≤ t ∧ t < (j + 1) * i.toNat) ↔ j = t / i.toNat) ∧
+    ∃ res, aggregate s (.int i) = some res ∧
+      (∀ t e, (t, e) ∈ edgeKeys s → ∃ h, (t / i.toNat, h) ∈ res ∧ (get? h.edges e).isSome = true) ∧
+      (∀ j h e, (j, h) ∈ res → (get? h.edges e).isSome = true → ∃ t, (t, e) ∈ edgeKeys s ∧ t / i.toNat = j) := by
+  have hw : 0 < i.toNat := by omega
+  refine ⟨window_index i.toNat hw, ?_⟩
+  obtain ⟨res, hr, hmap, hall⟩ := (C03_aggregate s hs i hi).2 M hM
+  refine ⟨res, hr, ?_, ?_⟩
+  · intro t e hk
+    have hle : t ≤ M := ((C03_min_max_time s).2.2 M hM).2 (t, e) hk
+    have hj : t / i.toNat ∈ res.map (·.1) := by
+      rw [hmap, List.mem_range]
+      exact Nat.lt_succ_of_le (Nat.div_le_div_right hle)
+    obtain ⟨p, hp, hpj⟩ := List.mem_map.mp hj
+    refine ⟨p.2, by rw [← hpj]; exact hp, ?_⟩
+    have hp' : (p.1, p.2) ∈ res := hp
+    exact ((hall p.1 p.2 hp').2.2.1 e).mpr ⟨t, hk, by rw [hpj]; exact ((window_index i.toNat hw _ t).mpr rfl)⟩
+  · intro j h e hm he
+    obtain ⟨t, hk, h1, h2⟩ := ((hall j h hm).2.2.1 e).mp he
+    exact ⟨t, hk, ((window_index i.toNat hw j t).mp ⟨h1, h2⟩).symm⟩
+
+def rawOps : List ROp := [
+  .x (.ctor 0 extArgs),
+  .setEdgeList 0 [((5, [1, 3]), 0), ((2, [1, 2]), 1), ((5, [1, 2]), 2)],
+  .x (.f (.on 0 (.base (.removeEdge [1, 2] (.int 2))))),
+  .setAdjDict 0 [(9, []), (2, [2]), (1, [0, 2]), (3, [0])],
+  .setAdjDict 5 [],
+  .x (.f (.on 0 (.base (.addEdge [2, 9] (.int 7) (some 4) none))))]
+
+example : echoes [] rawOps = true ∧ (∀ op ∈ pubOps rawOps, op.WF) ∧ (pubOps rawOps).length = 3 := by decide
+example : rrun [] rawOps = xrun [] (pubOps rawOps) := (C03_raw_echo_history rawOps (by decide) (by decide)).1
+-- an assignment that is NOT an echo: the object stops answering like the map (node 1 loses its incident records)
+example : echoes [] [.x (.ctor 0 extArgs), .setAdjDict 0 (dropAt (adjTable extStore) 2)] = false ∧
+    adjTable (setAdjDict extStore (dropAt (adjTable extStore) 2)) = [(9, []), (2, [1, 2]), (3, [0])] ∧
+    edgeTable (setEdgeList extStore (dropAt (edgeTable extStore) 0)) = [((2, [1, 2]), 1), ((5, [1, 2]), 2)] ∧
+    revAt (adjTable extStore) 2 = [(9, []), (2, [1, 2]), (1, [2, 1, 0]), (3, [0])] := by decide
+example : window extStore 2 6 = [(2, [1, 2]), (5, [1, 2]), (5, [1, 3])] ∧ window extStore 2 5 = [(2, [1, 2])] ∧
+    window extStore 5 6 = [(5, [1, 2]), (5, [1, 3])] := by decide
+example : (snapshots extStore .none).map (fun r => r.map (fun p => (p.1, keys p.2.edges))) =
+    some [(5, [[1, 3], [1, 2]]), (2, [[1, 2]])] := by decide
+example : maxTime extStore = some 5 ∧ ∃ res, aggregate extStore (.int 3) = some res ∧
+    (∃ h, (1, h) ∈ res ∧ (get? h.edges [1, 3]).isSome = true) ∧ (∃ h, (0, h) ∈ res ∧ (get? h.edges [1, 2]).isSome = true) := by
+  have hr : Reachable extStore := (C03_constructor extArgs (by decide)).2 extStore (by decide) |>.2.1
+  obtain ⟨_, res, h1, h2, _⟩ := C03_aggregate_partition extStore hr 3 (by decide) 5 (by decide)
+  exact ⟨by decide, res, h1, h2 5 [1, 3] (by decide), h2 2 [1, 2] (by decide)⟩
